@@ -24,7 +24,8 @@ type modSet struct {
 	descs   map[string]compDesc
 	named   []string // components named by contracts of callees
 	hasExpr bool     // some callee contract names locations by expression: globals and ghost state may change
-	boxed   bool     // some callee writes through pointers boxed in interface slices
+	boxed   bool     // some callee writes through pointers boxed in interface slices of unknown origin
+	boxedParams []int // parameters of this function (slices of interfaces) whose boxed pointers are written through
 }
 
 func (m *modSet) add(d compDesc) {
@@ -176,9 +177,9 @@ func (eng *Engine) modSetOf(fn *ssa.Function) *modSet {
 				}
 				m.add(compDesc{kind: 'M', t: x.Map.Type()})
 			case *ssa.Call:
-				eng.modCall(m, &x.Call)
+				eng.modCall(m, fn, &x.Call)
 			case *ssa.Defer:
-				eng.modCall(m, &x.Call)
+				eng.modCall(m, fn, &x.Call)
 			case *ssa.MakeClosure:
 				// a closure created here may run later inside a callee: include its effects
 				if cf, ok := x.Fn.(*ssa.Function); ok {
@@ -202,11 +203,11 @@ func (eng *Engine) modSetOf(fn *ssa.Function) *modSet {
 	return m
 }
 
-func (eng *Engine) modCall(m *modSet, cc *ssa.CallCommon) {
+func (eng *Engine) modCall(m *modSet, fn *ssa.Function, cc *ssa.CallCommon) {
 	if cc.IsInvoke() {
 		key := "(" + typeKey(cc.Value.Type()) + ")." + cc.Method.Name()
 		if sp, ok := eng.specs[key]; ok {
-			eng.modSpec(m, sp, cc)
+			eng.modSpec(m, fn, sp, cc)
 			return
 		}
 		for _, a := range cc.Args {
@@ -233,17 +234,29 @@ func (eng *Engine) modCall(m *modSet, cc *ssa.CallCommon) {
 		}
 		if sp := eng.specForFn(cv); sp != nil {
 			if !sp.ModAll && !sp.ModNone && !sp.Trusted && !hasModifies(sp) && len(cv.Blocks) > 0 {
-				m.union(eng.modSetOf(cv))
+				cm := eng.modSetOf(cv)
+				m.union(cm)
+				for _, bi := range cm.boxedParams {
+					if bi < len(cc.Args) {
+						eng.boxedArg(m, fn, cc.Args[bi])
+					}
+				}
 				if hasGhostSet(sp) {
 					m.hasExpr = true
 				}
 				return
 			}
-			eng.modSpec(m, sp, cc)
+			eng.modSpec(m, fn, sp, cc)
 			return
 		}
 		if len(cv.Blocks) > 0 && cv.Pkg != nil && eng.ld.inRepo(cv.Pkg.Pkg.Path()) {
-			m.union(eng.modSetOf(cv))
+			cm := eng.modSetOf(cv)
+			m.union(cm)
+			for _, bi := range cm.boxedParams {
+				if bi < len(cc.Args) {
+					eng.boxedArg(m, fn, cc.Args[bi])
+				}
+			}
 			return
 		}
 		for _, a := range cc.Args {
@@ -286,7 +299,7 @@ func (eng *Engine) modArg(m *modSet, a ssa.Value) {
 }
 
 // modSpec: effects of a contracted callee as its contract states them.
-func (eng *Engine) modSpec(m *modSet, sp *FuncSpec, cc *ssa.CallCommon) {
+func (eng *Engine) modSpec(m *modSet, fn *ssa.Function, sp *FuncSpec, cc *ssa.CallCommon) {
 	if sp.ModAll || (!sp.ModNone && !sp.Trusted && !hasModifies(sp)) {
 		m.all = true
 		return
@@ -302,9 +315,18 @@ func (eng *Engine) modSpec(m *modSet, sp *FuncSpec, cc *ssa.CallCommon) {
 			t := strings.TrimSpace(c.Text)
 			switch {
 			case strings.HasPrefix(t, "pointees("):
-				// writes through the pointers boxed in a []interface{} argument: every function on the
-				// call chain contributes the pointers it boxes (see modSetOf)
-				m.boxed = true
+				// writes through the pointers boxed in a []interface{} argument
+				name := t[len("pointees(") : len(t)-1]
+				done := false
+				for i, pn := range sp.ParamNames {
+					if pn == name && i < len(cc.Args) {
+						eng.boxedArg(m, fn, cc.Args[i])
+						done = true
+					}
+				}
+				if !done {
+					m.boxed = true
+				}
 				continue
 			case strings.HasPrefix(t, "elems("), strings.HasPrefix(t, "map("), strings.HasPrefix(t, "ptr("):
 				t = t[strings.Index(t, "(")+1 : len(t)-1]
@@ -374,4 +396,47 @@ func freshRoot(v ssa.Value, depth int) bool {
 		return true
 	}
 	return false
+}
+
+// boxedArg: a callee writes through the pointers boxed in the interface slice v.
+func (eng *Engine) boxedArg(m *modSet, fn *ssa.Function, v ssa.Value) {
+	switch x := v.(type) {
+	case *ssa.Parameter:
+		for i, p := range fn.Params {
+			if p == x {
+				m.boxedParams = append(m.boxedParams, i)
+				return
+			}
+		}
+	case *ssa.Slice:
+		if al, ok := x.X.(*ssa.Alloc); ok {
+			// the variadic pack built at this call site: find what was boxed into it
+			for _, b := range fn.Blocks {
+				for _, in := range b.Instrs {
+					st, ok := in.(*ssa.Store)
+					if !ok {
+						continue
+					}
+					ia, ok := st.Addr.(*ssa.IndexAddr)
+					if !ok || ia.X != ssa.Value(al) {
+						continue
+					}
+					if mi, ok := st.Val.(*ssa.MakeInterface); ok {
+						if pt, ok := mi.X.Type().Underlying().(*types.Pointer); ok {
+							if !freshRoot(mi.X, 0) {
+								m.addObject(pt.Elem())
+							}
+							continue
+						}
+						continue
+					}
+					m.boxed = true
+				}
+			}
+			return
+		}
+	case *ssa.Const:
+		return
+	}
+	m.boxed = true
 }
